@@ -111,7 +111,8 @@ func cmdDump(args []string) int {
 	out := fs.String("out", "/var/tmp/govc-out", "output dir")
 	timeout := fs.Int("t", 10, "solver timeout (s)")
 	fs.Parse(args)
-	cs, err := loadContracts(*repo, nil)
+	extra, _ := filepath.Glob("/verif/contracts/*_verif.go")
+	cs, err := loadContracts(*repo, extra)
 	if err != nil {
 		fmt.Fprintln(os.Stderr, err)
 		return 2
